@@ -17,7 +17,8 @@ THEOREMS = [
     "CKT.C05.sum_abs_coeff", "CKT.C05.sign_coeffOf", "CKT.C05.exact_coeff", "CKT.C05.forMR_length", "CKT.C05.forMR_mem", "CKT.C05.counts",
 ]
 RULE = ("cut problems on 1-5 qubits, 1-4 partitions, 0-2 cuts over every gate family (58-map bases at most once), idle qubits, duplicates and identity "
-        "observables; budgets N in {1..5000, inf} under a scripted numpy sampler; separated (dict) and unseparated (single circuit) call forms; the joint "
+        "observables; budgets N in {1..5000, inf} under a scripted numpy sampler; separated (dict) and unseparated (single circuit) call forms, the two dictionaries also with "
+        "their keys listed in different orders; the joint "
         "weights returned by generate_qpd_weights and Qiskit's grouping are captured from the real run and given to the model; non-trivial = at least one cut; "
         "distinct by payload")
 ASSUMPTIONS = ["generate_qpd_weights is covered by C04; its returned dict (captured in the real run) is an input of this model",
@@ -40,8 +41,56 @@ def _small_angle_case(rng):
             "seed": rng.randrange(1 << 30), "always_oracle": True}
 
 
+def _reordered(d, how):
+    """the same mapping with its keys listed in another order (a dictionary keyed by partition label is a mapping: which observables belong to
+    which subcircuit is given by the key, not by the position)"""
+    items = list(d.items())
+    if how == "reversed":
+        items = items[::-1]
+    elif how == "rotated":
+        items = items[1:] + items[:1]
+    elif how:
+        raise ValueError(how)
+    return dict(items)
+
+
+def _key_order_cases(rng):
+    """separated problems whose `circuits` and `observables` dictionaries hold the same keys in DIFFERENT iteration orders (the caller re-keyed
+    one of them: sorted by label, rebuilt by hand, decomposed separately): partitions of equal size with different observables and different
+    numbers of groups / the same number of groups, partitions of different sizes, three partitions"""
+    body4 = [{"name": "h", "qubits": [0]}, {"name": "cx", "qubits": [0, 1]}, {"name": "ry", "qubits": [2], "params": [0.4]},
+             {"name": "cx", "qubits": [1, 2]}, {"name": "cx", "qubits": [2, 3]}, {"name": "rx", "qubits": [0], "params": [0.3]}]
+    body3 = [{"name": "h", "qubits": [0]}, {"name": "cx", "qubits": [0, 1]}, {"name": "rzz", "qubits": [1, 2], "params": [0.8]},
+             {"name": "ry", "qubits": [2], "params": [0.3]}]
+    body6 = [{"name": "h", "qubits": [0]}, {"name": "cx", "qubits": [0, 1]}, {"name": "ry", "qubits": [2], "params": [0.7]},
+             {"name": "cz", "qubits": [1, 2]}, {"name": "cx", "qubits": [2, 3]}, {"name": "ry", "qubits": [4], "params": [1.1]},
+             {"name": "rzz", "qubits": [3, 4], "params": [0.6]}, {"name": "cx", "qubits": [4, 5]}, {"name": "rx", "qubits": [5], "params": [0.2]}]
+    fam = [
+        # labels listed second-first ("BBAA"): subcircuits come back as {B, A}; equal sizes, 2 groups vs 1 group
+        (4, body4, [1, 1, 0, 0], ["ZZXX", "IZYI", "ZIIX"], {"obs_order": "reversed"}, None),
+        (4, body4, [1, 1, 0, 0], ["ZZXX", "IZYI", "ZIIX"], {"obs_order": "reversed"}, 4),
+        # one group per partition: the numbers of circuits agree, only rotations / measured qubits tell the partitions apart
+        (4, body4, [1, 1, 0, 0], ["ZZXX"], {"obs_order": "reversed"}, None),
+        (4, body4, [0, 0, 1, 1], ["XZYI", "IXZZ"], {"circ_order": "reversed"}, None),
+        # partitions of different sizes
+        (3, body3, [0, 0, 1], ["ZZZ", "IXX", "ZIY"], {"obs_order": "reversed"}, None),
+        (3, body3, [0, 0, 1], ["ZZZ", "IXX", "ZIY"], {"circ_order": "reversed"}, 6),
+        # three partitions, both dictionaries re-keyed differently
+        (6, body6, [0, 0, 1, 1, 2, 2], ["ZZXXIZ", "XIZIYY", "IZIXZI"], {"obs_order": "rotated", "circ_order": "reversed"}, None),
+        (6, body6, [2, 2, 0, 0, 1, 1], ["ZZXXIZ", "XIZIYY"], {"obs_order": "rotated"}, 5),
+    ]
+    for k, (nq, body, labels, obs, order, n_) in enumerate(fam):
+        npart = max(labels) + 1
+        p = {"nq": nq, "qregs": [nq], "instrs": [dict(i) for i in body], "labels": labels, "pool_idx": [0, 1, 4][:npart],
+             "obs": [{"l": l, "p": 0} for l in obs], "idle": [], "part": labels, "form": "dict", "N": n_,
+             "seed": 50512 + k, "always_oracle": True}   # fixed sampler seeds: the random stream of the later families is left untouched
+        p.update(order)
+        yield ("generate", p)
+
+
 def cases(rng, tier):
     N = 100 if tier == "quick" else 800
+    yield from _key_order_cases(rng)
     for _ in range(3 if tier == "quick" else 20):
         yield ("generate", _small_angle_case(rng))
     # a budget of exactly one sample (int, float): accepted, one joint map with coefficient ± the product of the kappas
@@ -128,7 +177,8 @@ def _inputs0(payload):
             # automatic labelling: the crossing gates are marked as cut beforehand (they are ignored for connectivity)
             qc, _ = cut_gates(qc, ids)
         pp = partition_problem(qc, labels, obs)
-        return pp.subcircuits, pp.subobservables, qc
+        # optionally the same two mappings with their keys listed in other orders
+        return _reordered(pp.subcircuits, payload.get("circ_order")), _reordered(pp.subobservables, payload.get("obs_order")), qc
     # single form: cut the gates that cross the generator's partition
     cut, _ = cut_gates(qc, ids)
     return cut, obs, qc
@@ -282,10 +332,42 @@ def oracle(kind, payload):
     return why
 
 
+def _same_mapping_reference(payload, exps, coeffs, error=None):
+    """The two dictionaries are mappings keyed by partition label: listing their keys in another order is the same cut problem, so (under the
+    same sampler script) the result must be the one obtained from the dictionaries as partition_problem returned them - partition by partition."""
+    base = {k: v for k, v in payload.items() if k not in ("obs_order", "circ_order")}
+    how = {k: payload[k] for k in ("obs_order", "circ_order") if payload.get(k)}
+    try:
+        _, _, exps0, coeffs0, _ = _run(base)
+    except Exception:
+        return None   # the problem itself is refused: nothing to compare with
+    if error is not None:
+        return (f"dictionaries with the same keys listed in another order ({how}) are refused with ValueError: {error}; the same mappings in "
+                f"partition_problem's order are accepted")
+    if set(map(repr, exps)) != set(map(repr, exps0)):
+        return f"key order {how}: partitions {sorted(map(repr, exps))} returned instead of {sorted(map(repr, exps0))}"
+    if len(coeffs) != len(coeffs0) or any(ta != tb or abs(a - b) > 1e-9 * max(1.0, abs(b)) for (a, ta), (b, tb) in zip(coeffs, coeffs0)):
+        return f"key order {how}: the coefficients depend on the order in which the dictionaries list their keys"
+    for lab, cs in exps.items():
+        cs0 = exps0[lab]
+        if len(cs) != len(cs0):
+            return f"key order {how}: partition {lab!r} has {len(cs)} circuits, but {len(cs0)} when the dictionaries list their keys alike"
+        for k, (a, b) in enumerate(zip(cs, cs0)):
+            ca, cb = _strip(canon.canon_circuit(a)), _strip(canon.canon_circuit(b))
+            if ca != cb:
+                return (f"key order {how}: subexperiment {k} of partition {lab!r} is not the one generated for this partition's subcircuit and "
+                        f"observables (looked up by label): {[i['name'] for i in ca['instrs']]} / cregs {ca['cregs']} instead of "
+                        f"{[i['name'] for i in cb['instrs']]} / cregs {cb['cregs']}")
+    return None
+
+
 def _oracle_contract(kind, payload):
+    reordered = payload.get("obs_order") or payload.get("circ_order")
     try:
         circuits, observables, exps, coeffs, captured = _run(payload)
-    except ValueError:
+    except ValueError as ex:
+        if reordered:
+            return _same_mapping_reference(payload, None, None, error=ex)
         return None
     except Exception as ex:
         return f"generate_cutting_experiments raised {type(ex).__name__}: {ex}"
@@ -356,6 +438,10 @@ def _oracle_contract(kind, payload):
             for k_i, inst in enumerate(c.data):
                 if inst.operation.name == "measure" and c.find_bit(inst.clbits[0]).registers[0][0].name == "observable_measurements":
                     meas[c.find_bit(inst.qubits[0]).index] = k_i
+            # exactly the qubits of this partition's group are measured (one ignored placeholder measurement when the group is the identity)
+            if sorted(meas) != sorted(int(q) for q in cog.pauli_indices) and (len(cog.pauli_indices) or len(meas) != 1):
+                return (f"partition {lab!r}, group {cog.general_observable.to_label()} (circuit {idx_c}): the observable measurements are on qubits "
+                        f"{sorted(meas)}, the group acts on {sorted(int(q) for q in cog.pauli_indices)}")
             for q in (cog.pauli_indices if len(cog.pauli_indices) else []):
                 if q not in meas:
                     return f"partition {lab!r}: qubit {q} of the commuting group is not measured"
@@ -369,4 +455,6 @@ def _oracle_contract(kind, payload):
                 return f"placeholder left in a subexperiment of partition {lab!r}"
             if [r.name for r in c.cregs][-2:] != ["observable_measurements", "qpd_measurements"]:
                 return f"classical registers end with {[r.name for r in c.cregs][-2:]}"
+    if reordered:
+        return _same_mapping_reference(payload, exps, coeffs)
     return None
